@@ -28,6 +28,24 @@ CHECKS = {
     design_ref="DESIGN.md §5 C07",
     note="Trusted: TLC, Text.tla line functions, harness projection. Blank = only spaces/tabs/commas/CR; comment-only = first other char '#'.",
     technique="TLA+ line-accounting reference (Text.tla) + TLC-generated faulty files and twins replayed into the real parser + TLC trace validation"),
+ "C03": dict(
+    category="model_checking",
+    text="Static part of C03. TLC generates control-flow / call-graph / label arrangements from Gen_Flow (tlc -simulate over programs of 3..7 instructions in four shapes; exhaustive n=2 in the thorough tier); the real pipeline builds the finished Cfg and TLC validates each recorded graph against CfgRef: successor/predecessor symmetry; every edge justified (fall-through, written label, merge of an additional return into a function exit); every edge the reference requires of a reachable node present (fall-through, branch/jump target, return from call); no edge after an exit ecall; no reference-reachable node reported as unreachable code. The dynamic edge monitor (executed transfers are edges) runs with the machine in C01's check.",
+    design_ref="DESIGN.md §5 C03",
+    note="Trusted: TLC, CfgRef.tla, harness projection (edges by Rc pointer identity). Exit ecalls taken from the analyzer's own a7 facts (C01 validates them). Domain: no indirect jumps but ret, no path running off the end of the file.",
+    technique="TLA+ reference CFG (CfgRef) + TLC-simulated/enumerated flow programs replayed into the real pipeline + TLC trace validation of the recorded graph"),
+ "C11": dict(
+    category="model_checking",
+    text="Same generated arrangements as C03 (several labels on one entry, interleaved bodies, shared tails, fall-through entries, recursion, calls from dead code, multiple returns). TLC validates the recorded function table against CfgRef: function entries are exactly the call targets; each body equals reachability from its entry over the recorded edges; per-node owner lists agree with the bodies; each exit is a return inside the body reached by every other return; node-in-many-functions is reported exactly for shared entries (sharing without a shared entry is a recorded finding).",
+    design_ref="DESIGN.md §5 C11",
+    note="Trusted: TLC, CfgRef.tla, harness projection. Alias labels on one instruction share the function. Interrupt-handler discovery is not generated by Gen_Flow.",
+    technique="TLA+ reference function discovery/body definitions (CfgRef) + TLC-generated call-graph arrangements replayed into the real pipeline + TLC trace validation"),
+ "C16": dict(
+    category="model_checking",
+    text="Same generator, including its ill-formed shapes (undefined labels in jumps/branches/calls/la, a duplicated label, labels at end of file, functions without return, returns outside functions, calls into data labels). TLC validates the recorded outcome: undefined/duplicate labels are detected and located on an occurrence of that label (slice of the file text), any other stop of the analysis is a specific error in the base file, never 'Unexpected error' / nil file.",
+    design_ref="DESIGN.md §5 C16",
+    note="Trusted: TLC, Text.tla slices, harness projection. Single-file programs (visibility = attributed to the base file); multi-file visibility is C15/C18.",
+    technique="TLA+ failure contract (Trace_Cfg!JudgeC16) + TLC-generated ill-formed programs replayed into the real pipeline + TLC trace validation"),
 }
 PENDING = "check not built yet in this round (planned, see DESIGN.md §5); not claimed until its check is green on the unchanged tree"
 m = {
